@@ -77,21 +77,39 @@ def active(stack, pv):
     return True
 
 
-def build(tree, preds, data, tg):
+def build(tree, preds, data, tg, special=None):
+    special = special or {}
     for p, body in tree:
         ctx = pyrtl.otherwise if p == 'o' else preds[p]
         with ctx:
             for b in body:
                 if b[0] == 'asg':
                     t = tg[b[1]]
+                    sp = special.get(b[2])
                     if isinstance(t, Register):
-                        t.next |= data[b[2]]
+                        if sp and sp[0] == 'hold':
+                            t.next |= t                 # an explicit hold
+                        elif sp and sp[0] == 'lit':
+                            t.next |= sp[1]             # an integer literal (narrower than the register)
+                        else:
+                            t.next |= data[b[2]]
                     elif isinstance(t, MemBlock):
                         t[data[(b[2] + 1) % ND][:2]] |= MemBlock.EnabledWrite(data[b[2]], data[(b[2] + 2) % ND][0])
+                    elif sp and sp[0] == 'lit':
+                        t |= sp[1]
                     else:
                         t |= data[b[2]]
                 else:
-                    build(b[1], preds, data, tg)
+                    build(b[1], preds, data, tg, special)
+
+
+def rhs_value(special, tname, idx, dv, rv):
+    sp = special.get(idx)
+    if sp and sp[0] == 'lit' and tname != 'm':
+        return sp[1]
+    if sp and sp[0] == 'hold' and tname in rv:
+        return rv[tname]
+    return dv[idx]
 
 
 def one_tree(ctx, k):
@@ -101,7 +119,8 @@ def one_tree(ctx, k):
     data = [Input(3, 'd%d' % i) for i in range(ND)]
     w0, w1 = WireVector(3, 'w0'), WireVector(3, 'w1')
     r0, r1 = Register(3, 'r0'), Register(3, 'r1', reset_value=5)
-    m = MemBlock(3, 2, 'm', asynchronous=True, max_read_ports=None, max_write_ports=None)
+    # memories have their own name space: now and then the memory is called like one of the wires / registers
+    m = MemBlock(3, 2, rng.choice(['m', 'm', 'r0', 'w1', 'r1']), asynchronous=True, max_read_ports=None, max_write_ports=None)
     tg = {'w0': w0, 'w1': w1, 'r0': r0, 'r1': r1, 'm': m}
     names = list(tg)
     depth = rng.choice([0, 1, 2, ctx.n(3, 4)])
@@ -111,8 +130,22 @@ def one_tree(ctx, k):
     iw1, ir1 = rng.randrange(ND), rng.randrange(ND)
     dflt_w1 = data[iw1]
     dflt_r1 = data[ir1]
+    # now and then a default is an integer literal rather than a wire
+    lit_w1 = rng.choice([0, 1, 3, 6]) if rng.random() < 0.3 else None
+    lit_r1 = rng.choice([0, 1, 2, 7]) if rng.random() < 0.3 else None
+    if lit_w1 is not None:
+        dflt_w1 = lit_w1
+    if lit_r1 is not None:
+        dflt_r1 = lit_r1
     defaults = {w1: dflt_w1, r1: dflt_r1} if use_defaults else {}
-    replay = {'kind': 'cond-tree', 'tree': repr(tree), 'defaults': use_defaults}
+    special = {}
+    if rng.random() < 0.5:
+        for idx in rng.sample(range(ND), rng.randint(1, min(2, ND))):
+            special[idx] = ('hold',) if rng.random() < 0.4 else ('lit', rng.choice([0, 1, 2, 3, 5, 7]))
+    replay = {'kind': 'cond-tree', 'tree': repr(tree), 'defaults': use_defaults, 'special_rhs': {str(k_): list(v) for k_, v in special.items()},
+              'literal_defaults': [lit_w1, lit_r1]}
+    for v in special.values():
+        ctx.count('special-rhs', v[0])
     # expected accept / reject: every two assignments to one target syntactically exclusive
     by_t = {}
     for t, rhs, st in asgs:
@@ -121,7 +154,7 @@ def one_tree(ctx, k):
                       for i, a in enumerate(l) for b in l[i + 1:])
     try:
         with pyrtl.conditional_assignment(defaults=defaults):
-            build(tree, preds, data, tg)
+            build(tree, preds, data, tg, special)
         rejected = None
     except pyrtl.PyrtlError as e:
         rejected = str(e)
@@ -206,8 +239,8 @@ def one_tree(ctx, k):
             ctx.violation('two-active', 'accepted program has two active assignments to one target under %r' % pv, replay)
             return
         exp = {
-            'ow0': dv[act['w0'][0]] if 'w0' in act else 0,
-            'ow1': dv[act['w1'][0]] if 'w1' in act else (dv[iw1] if (use_defaults and 'w1' in used) else 0),
+            'ow0': rhs_value(special, 'w0', act['w0'][0], dv, rv) if 'w0' in act else 0,
+            'ow1': rhs_value(special, 'w1', act['w1'][0], dv, rv) if 'w1' in act else ((dv[iw1] if lit_w1 is None else lit_w1) if (use_defaults and 'w1' in used) else 0),
             'or0': rv['r0'], 'or1': rv['r1'],
             'om0': mem[0], 'om1': mem[1], 'om2': mem[2], 'om3': mem[3],
         }
@@ -219,9 +252,9 @@ def one_tree(ctx, k):
             return
         # registers / memory for the next cycle
         if 'r0' in used:
-            rv['r0'] = dv[act['r0'][0]] if 'r0' in act else rv['r0']
+            rv['r0'] = rhs_value(special, 'r0', act['r0'][0], dv, rv) if 'r0' in act else rv['r0']
         if 'r1' in used:
-            rv['r1'] = dv[act['r1'][0]] if 'r1' in act else (dv[ir1] if use_defaults else rv['r1'])
+            rv['r1'] = rhs_value(special, 'r1', act['r1'][0], dv, rv) if 'r1' in act else ((dv[ir1] if lit_r1 is None else lit_r1) if use_defaults else rv['r1'])
         if 'm' in act:
             j = act['m'][0]
             if dv[(j + 2) % ND] & 1:
@@ -290,8 +323,81 @@ def multi_block(ctx, k):
         rv = (rv + 1) % 8 if st['b'] else dv['r']
 
 
+def mem_blocks(ctx, k):
+    """two memories written in one conditional block (bank select), and one of them written again from a second,
+    separate conditional block: every port keeps its own guard, address, data"""
+    rng = ctx.rng
+    pyrtl.reset_working_block()
+    wr, bank, we1 = Input(1, 'wr'), Input(1, 'bank'), Input(1, 'we1')
+    addr, a1 = Input(2, 'addr'), Input(2, 'a1')
+    data, d1 = Input(8, 'data'), Input(8, 'd1')
+    hi = MemBlock(8, 2, 'hi', asynchronous=True, max_write_ports=2, max_read_ports=None)
+    lo = MemBlock(8, 2, 'lo', asynchronous=True, max_read_ports=None)
+    cnt = Register(3, 'cnt')
+    order = rng.random() < 0.5
+    try:
+        def first():
+            with pyrtl.conditional_assignment:
+                with wr:
+                    cnt.next |= cnt + 1
+                    with bank:
+                        hi[addr] |= data
+                    with pyrtl.otherwise:
+                        lo[addr] |= data
+
+        def second():
+            with pyrtl.conditional_assignment:
+                with we1:
+                    hi[a1] |= d1
+        for f in ((first, second) if order else (second, first)):
+            f()
+    except Exception as e:  # noqa
+        ctx.violation('mem-blocks-raises:' + type(e).__name__, 'two conditional blocks writing two memories (a two-port memory from both blocks) '
+                      'raised %s: %s' % (type(e).__name__, str(e)[:140]), {'kind': 'mem-blocks', 'order': order})
+        return
+    for nm_, m_ in (('h', hi), ('l', lo)):
+        for a in range(4):
+            o = Output(8, 'o%s%d' % (nm_, a))
+            o <<= m_[Const(a, 2)]
+    oc = Output(3, 'ocnt')
+    oc <<= cnt
+    try:
+        sim = pyrtl.Simulation()
+    except Exception as e:  # noqa
+        ctx.violation('mem-blocks-raises:' + type(e).__name__, 'the design raised %s: %s' % (type(e).__name__, str(e)[:140]), {'kind': 'mem-blocks'})
+        return
+    H, L, c = [0] * 4, [0] * 4, 0
+    for cyc in range(8):
+        st = {'wr': rng.randrange(2), 'bank': rng.randrange(2), 'we1': rng.randrange(2), 'addr': rng.randrange(4),
+              'a1': rng.randrange(4), 'data': rng.randrange(256), 'd1': rng.randrange(256)}
+        if st['wr'] and st['bank'] and st['we1'] and st['a1'] == st['addr']:
+            st['a1'] = (st['a1'] + 1) % 4        # two ports, one word: unspecified
+        sim.step(st)
+        want = {'oh%d' % a: H[a] for a in range(4)}
+        want.update({'ol%d' % a: L[a] for a in range(4)})
+        want['ocnt'] = c
+        got = {n: sim.inspect(n) for n in want}
+        ctx.evaluations += 1
+        if got != want:
+            bad = [n for n in sorted(want) if got[n] != want[n]][0]
+            ctx.violation('mem-blocks-value:' + bad[:2], 'two memories in one conditional block and a second block writing one of them (order %s), cycle %d: '
+                          '%s = %d, expected %d' % ('first,second' if order else 'second,first', cyc, bad, got[bad], want[bad]),
+                          {'kind': 'mem-blocks', 'cycle': cyc, 'inputs': st})
+            return
+        if st['wr']:
+            c = (c + 1) % 8
+            if st['bank']:
+                H[st['addr']] = st['data']
+            else:
+                L[st['addr']] = st['data']
+        if st['we1']:
+            H[st['a1']] = st['d1']
+
+
 def main(ctx):
     proofs_ok = proof_gate(ctx, gen_modules=[])
+    for k in range(ctx.n(20, 200)):
+        mem_blocks(ctx, k)
     for k in range(ctx.n(30, 400)):
         try:
             multi_block(ctx, k)
